@@ -226,17 +226,22 @@ GhostNext(g, x) ==
         acc == x.ev = "PutVerified" /\ x.r.res = "Ok"
         t == IF x.ev = "RunTask" THEN x.s.tasks[x.i] ELSE [kind |-> "-"]
     IN [ validated |-> IF x.ev = "PutVerified" THEN [g.validated EXCEPT ![x.k] = @ \cup {x.v}] ELSE g.validated,
-         last |-> [k \in Key |-> IF acc /\ k = x.k THEN [kind |-> "put", v |-> x.v]
+         \* (after a crash the history of C01 starts afresh from what the reopened store serves)
+         last |-> [k \in Key |-> IF x.ev = "Restart" THEN (IF x.rb[k] # None THEN [kind |-> "put", v |-> x.rb[k]]
+                                                                            ELSE [kind |-> "none", v |-> 0])
+                                 ELSE IF acc /\ k = x.k THEN [kind |-> "put", v |-> x.v]
                                  ELSE IF k \in rm THEN [kind |-> "removed", v |-> 0]
                                  ELSE g.last[k]],
-         durable |-> [k \in Key |-> IF t.kind = "W" /\ t.k = k THEN
+         durable |-> [k \in Key |-> IF x.ev = "Restart" THEN (IF x.rb[k] # None /\ x.rb[k] \in Val THEN x.rb[k] ELSE 0)
+                                    ELSE IF t.kind = "W" /\ t.k = k THEN
                                         \* the write that just completed is the latest accepted one for k?
                                         (IF g.last[k].kind = "put" /\ g.last[k].v = t.v
                                             /\ ~\E j \in 1..Len(x.r.st.tasks) : x.r.st.tasks[j].kind = "W" /\ x.r.st.tasks[j].k = k
                                          THEN t.v ELSE 0)
                                     ELSE IF (acc /\ k = x.k) \/ k \in rm THEN 0
                                     ELSE g.durable[k]],
-         gone |-> [k \in Key |-> IF t.kind = "D" /\ t.k = k
+         gone |-> [k \in Key |-> IF x.ev = "Restart" THEN FALSE
+                                 ELSE IF t.kind = "D" /\ t.k = k
                                  THEN ~\E j \in 1..Len(x.r.st.tasks) : x.r.st.tasks[j].kind = "W" /\ x.r.st.tasks[j].k = k
                                  ELSE IF acc /\ k = x.k THEN FALSE ELSE g.gone[k]],
          restarted |-> (x.ev = "Restart"),
